@@ -18,6 +18,7 @@ package memfs
 
 import (
 	"io/fs"
+	"sync"
 
 	"github.com/avfs/avfs"
 	"github.com/avfs/avfs/idm/memidm"
@@ -52,6 +53,7 @@ func NewWithOptions(opts *Options) *MemFS {
 		fileMode:  0,
 		lastId:    new(uint64),
 		renameSeq: new(uint64),
+		renameMu:  new(sync.RWMutex),
 		name:      opts.Name,
 	}
 
